@@ -70,17 +70,19 @@ Proof.
   unfold digits_of. intros H. apply (f_equal (@rev N)) in H. rewrite rev_involutive in H.
   revert H. apply le_digits_nonempty.
 Qed.
+Lemma hd_rev_last (l : list N) d : hd d (rev l) = last l d.
+Proof.
+  induction l as [|x l IH]; [reflexivity|]. destruct l as [|y l']; [reflexivity|].
+  change (last (x :: y :: l') d) with (last (y :: l') d). rewrite <- IH.
+  change (rev (x :: y :: l')) with ((rev l' ++ [y]) ++ [x]). change (rev (y :: l')) with (rev l' ++ [y]).
+  destruct (rev l' ++ [y]) eqn:E; [destruct (rev l'); discriminate|reflexivity].
+Qed.
 Lemma digits_head n : n <> 0 -> hd 0 (digits_of n) <> 0.
 Proof.
   intros Hn. unfold digits_of.
   pose proof (le_digits_last _ n (size_bound n) Hn) as H.
   remember (le_digits (S (N.to_nat (N.size n))) n) as l.
-  assert (G : forall (l : list N), l <> [] -> hd 0 (rev l) = last l 0).
-  { clear. induction l as [|x l IH]; intros Hl; [congruence|].
-    destruct l as [|y l']; [reflexivity|].
-    cbn [rev] in *. rewrite <- IH by discriminate.
-    destruct (rev l' ++ [y]) eqn:E; [destruct (rev l'); discriminate|reflexivity]. }
-  rewrite G; [exact H|]. subst l. apply le_digits_nonempty.
+  rewrite hd_rev_last. exact H.
 Qed.
 Lemma digits_zero : digits_of 0 = [0].
 Proof. reflexivity. Qed.
@@ -90,7 +92,7 @@ Definition is_dec_char (c : byte) : bool := (48 <=? c) && (c <=? 57).
 Lemma digit_val_dec d : d < 10 -> digit_val (48 + d) = Some d.
 Proof.
   intros H. unfold digit_val.
-  destruct (N.leb_spec 48 (48 + d)); [|lia]. destruct (N.leb_spec (48 + d) 57); [|lia]. simpl. f_equal. lia.
+  destruct (N.leb_spec 48 (48 + d)); [|lia]. destruct (N.leb_spec (48 + d) 57); [|lia]. cbn [andb]. f_equal. lia.
 Qed.
 
 Lemma parse_num_digits base ds : forall acc rest, 10 <= base ->
@@ -149,62 +151,64 @@ Proof.
   destruct (N.eqb_spec c 32); [lia|]. destruct (N.leb_spec 9 c); destruct (N.leb_spec c 13); simpl; try reflexivity; lia.
 Qed.
 
+Lemma dec_char_bounds c : is_dec_char c = true -> 48 <= c <= 57.
+Proof. unfold is_dec_char. intros H. apply andb_true_iff in H. destruct H as [H1 H2]. apply N.leb_le in H1. apply N.leb_le in H2. lia. Qed.
+Lemma valid_digit_dec c : is_dec_char c = true -> valid_digit 10 c = true.
+Proof.
+  intros H. pose proof (dec_char_bounds c H). unfold valid_digit. replace c with (48 + (c - 48)) by lia.
+  rewrite digit_val_dec by lia. apply N.ltb_lt. lia.
+Qed.
+
+(* strtoll on text that begins with a decimal digit other than '0': base 10, no sign *)
+Lemma strtoll_dec_shape c r : is_dec_char c = true -> c <> 48 ->
+  strtoll (c :: r) = let '(v, rest) := parse_num 10 (c :: r) 0 in
+                     if v <? 9223372036854775808 then Some (Z.of_N v, rest) else None.
+Proof.
+  intros Hc H0. pose proof (dec_char_bounds c Hc) as B.
+  assert (E45 : (c =? 45) = false) by (apply N.eqb_neq; lia).
+  assert (E43 : (c =? 43) = false) by (apply N.eqb_neq; lia).
+  assert (E48 : (c =? 48) = false) by (apply N.eqb_neq; lia).
+  unfold strtoll. rewrite drop_space_digit by exact Hc. cbv zeta. rewrite E45, E43. cbn [orb].
+  destruct r as [|x [|h r']]; repeat (rewrite ?E48; cbn [andb skipn]). all: (pose proof (valid_digit_dec c Hc) as V; rewrite V; reflexivity).
+Qed.
+Lemma strtoll_neg_shape c r : is_dec_char c = true -> c <> 48 ->
+  strtoll (45 :: c :: r) = let '(v, rest) := parse_num 10 (c :: r) 0 in
+                           if v <=? 9223372036854775808 then Some ((- Z.of_N v)%Z, rest) else None.
+Proof.
+  intros Hc H0. pose proof (dec_char_bounds c Hc) as B.
+  assert (E48 : (c =? 48) = false) by (apply N.eqb_neq; lia).
+  unfold strtoll. change (drop_space (45 :: c :: r)) with (45 :: c :: r). cbv zeta.
+  cbn [N.eqb Pos.eqb orb].
+  destruct r as [|x [|h r']]; repeat (rewrite ?E48; cbn [andb skipn]).
+  all: (pose proof (valid_digit_dec c Hc) as V; rewrite V; reflexivity).
+Qed.
+
 (* strtoll on a printed unsigned number *)
 Theorem strtoll_print_dec n rest : stops rest -> n < 9223372036854775808 ->
   strtoll (print_dec n ++ rest) = Some (Z.of_N n, rest).
 Proof.
   intros Hs Hn. pose proof (parse_num_print_dec n rest Hs) as P.
   destruct (print_dec_shape n) as [[-> E]|[Hn0 [d [r [E Hd]]]]].
-  - rewrite E in *. cbn [app]. unfold strtoll.
-    destruct Hs as [->|[r' ->]]; reflexivity.
-  - rewrite E in *. cbn [app] in *. unfold strtoll.
-    rewrite drop_space_digit.
-    2:{ unfold is_dec_char. destruct (N.leb_spec 48 (48 + d)); [|lia]. destruct (N.leb_spec (48 + d) 57); [reflexivity|lia]. }
-    assert (A : 48 + d <> 45 /\ 48 + d <> 43 /\ 48 + d <> 48) by lia. destruct A as [A1 [A2 A3]].
-    replace (48 + d) with (N.succ (47 + d)) in * by lia.
-    destruct (47 + d) as [|p] eqn:Ep; [lia|].
-    (* the first character is a positive numeral different from '-', '+', '0' *)
-    assert (Hsel : forall (X : Type) (f1 f2 f3 : text -> X) (g : X),
-      match N.succ (N.pos p) :: r ++ rest with 45 :: r0 => f1 r0 | 43 :: r0 => f2 r0 | _ => g end = g).
-    { intros. destruct (N.succ (N.pos p)) as [|q] eqn:Eq; [reflexivity|].
-      do 6 (destruct q as [q|q|]; try reflexivity); exfalso; lia. }
-    rewrite Hsel.
-    assert (Hsel2 : forall (X : Type) (f1 : N -> N -> text -> X) (f2 : text -> X) (g : X),
-      match N.succ (N.pos p) :: r ++ rest with 48 :: x :: h :: r0 => f1 x h r0 | 48 :: l => f2 l | _ => g end = g).
-    { intros. destruct (N.succ (N.pos p)) as [|q] eqn:Eq; [reflexivity|].
-      do 6 (destruct q as [q|q|]; try reflexivity); exfalso; lia. }
-    rewrite Hsel2.
-    assert (V : valid_digit 10 (N.succ (N.pos p)) = true).
-    { replace (N.succ (N.pos p)) with (48 + d) by lia. unfold valid_digit. rewrite digit_val_dec by lia.
-      apply N.ltb_lt. lia. }
-    rewrite V. rewrite P.
-    destruct (N.ltb_spec n 9223372036854775808); [reflexivity|lia].
+  - rewrite E in *. cbn [app].
+    destruct Hs as [->|[r' ->]]; [reflexivity|]. destruct r' as [|h r'']; reflexivity.
+  - rewrite E in *. cbn [app] in *. rewrite strtoll_dec_shape.
+    + rewrite P. destruct (N.ltb_spec n 9223372036854775808); [reflexivity|lia].
+    + unfold is_dec_char. destruct (N.leb_spec 48 (48 + d)); [|lia]. destruct (N.leb_spec (48 + d) 57); [reflexivity|lia].
+    + lia.
 Qed.
 
 Theorem strtoll_print_sdec z rest : stops rest -> (-9223372036854775808 <= z < 9223372036854775808)%Z ->
   strtoll (print_sdec z ++ rest) = Some (z, rest).
 Proof.
   intros Hs Hz. unfold print_sdec. destruct (Z.ltb_spec z 0) as [Hneg|Hpos].
-  - (* "-" then the digits of |z| *)
-    set (n := Z.abs_N z). assert (Hn : n <> 0) by (unfold n; lia).
+  - set (n := Z.abs_N z). assert (Hn : n <> 0) by (unfold n; lia).
     assert (Hn2 : n <= 9223372036854775808) by (unfold n; lia).
     pose proof (parse_num_print_dec n rest Hs) as P.
     destruct (print_dec_shape n) as [[E _]|[_ [d [r [E Hd]]]]]; [congruence|].
-    cbn [app]. rewrite E in *. cbn [app] in *. unfold strtoll. cbn [drop_space is_space N.eqb N.leb]. simpl (is_space 45).
-    cbn iota.
-    replace (48 + d) with (N.succ (47 + d)) in * by lia.
-    destruct (47 + d) as [|p] eqn:Ep; [lia|].
-    assert (Hsel2 : forall (X : Type) (f1 : N -> N -> text -> X) (f2 : text -> X) (g : X),
-      match N.succ (N.pos p) :: r ++ rest with 48 :: x :: h :: r0 => f1 x h r0 | 48 :: l => f2 l | _ => g end = g).
-    { intros. destruct (N.succ (N.pos p)) as [|q] eqn:Eq; [reflexivity|].
-      do 6 (destruct q as [q|q|]; try reflexivity); exfalso; lia. }
-    rewrite Hsel2.
-    assert (V : valid_digit 10 (N.succ (N.pos p)) = true).
-    { replace (N.succ (N.pos p)) with (48 + d) by lia. unfold valid_digit. rewrite digit_val_dec by lia.
-      apply N.ltb_lt. lia. }
-    rewrite V, P.
-    destruct (N.leb_spec n 9223372036854775808); [|lia].
-    f_equal. f_equal. unfold n. lia.
+    cbn [app]. rewrite E in *. cbn [app] in *. rewrite strtoll_neg_shape.
+    + rewrite P. destruct (N.leb_spec n 9223372036854775808); [|lia]. f_equal. f_equal. unfold n. lia.
+    + unfold is_dec_char. destruct (N.leb_spec 48 (48 + d)); [|lia]. destruct (N.leb_spec (48 + d) 57); [reflexivity|lia].
+    + lia.
   - rewrite strtoll_print_dec by (try exact Hs; lia). f_equal. f_equal. lia.
 Qed.
 
